@@ -17,9 +17,12 @@ func (runInfo *runInfoStruct) invokeLetExpr() {
 			switch runInfo.rv.Kind() {
 			case reflect.Bool, reflect.String, reflect.Float32, reflect.Float64,
 				reflect.Int, reflect.Int8, reflect.Int16, reflect.Int32, reflect.Int64,
-				reflect.Uint, reflect.Uint8, reflect.Uint16, reflect.Uint32, reflect.Uint64, reflect.Uintptr:
+				reflect.Uint, reflect.Uint8, reflect.Uint16, reflect.Uint32, reflect.Uint64, reflect.Uintptr,
+				reflect.Slice, reflect.Map, reflect.Ptr, reflect.Chan, reflect.Func:
 				// a number, string or boolean read from a slice element, struct field or
-				// other variable is a value of its own, not a view of where it was read
+				// other variable is a value of its own, not a view of where it was read;
+				// a slice, map, pointer, channel or function keeps referring to the same
+				// data, but not to the slot it was read from
 				value := reflect.New(runInfo.rv.Type()).Elem()
 				value.Set(runInfo.rv)
 				runInfo.rv = value
